@@ -1,4 +1,5 @@
 import KyberModel.Proto.Vss
+import KyberModel.Proto.Share
 /-
 Model of the first phase of the Rabin DKG (`share/dkg/rabin/dkg.go`): `DistKeyGenerator` as a map
 "dealer index → Rabin VSS verifier" plus the node's own VSS dealer, and the calls that decide who is
@@ -17,10 +18,23 @@ verified as C10) — this file only adds what dkg.go adds around it:
 * `SetTimeout` reaches every verifier; `QUAL` is the set of dealers whose verifier answers
   `DealCertified`, `Certified` compares its size with the node's threshold.
 
+Second phase (the distributed key): `SecretCommits`, `ProcessSecretCommits`, `ProcessComplaintCommits`,
+`ProcessReconstructCommits`, `Finished`, `DistKeyShare`. The Feldman commitments of a dealer are the list of
+discrete logs of its coefficient commitments (base `G`); revealed shares are `(index, value)` pairs; the
+interpolation is `Share.recoverPriPoly` (the C07 model of `share.RecoverPriPoly`).
+
 Authentication and encryption are input booleans, as in the VSS model.
 -/
 namespace Kyber.RabinDkg
 open Kyber.Vss
+
+/-- A `ReconstructCommits` as stored: session id, sender, revealed share. -/
+structure Rc where
+  sid : Nat
+  index : Nat
+  si : Nat
+  sv : Nat
+deriving DecidableEq, Repr
 
 structure Node where
   me : Nat
@@ -28,6 +42,12 @@ structure Node where
   /-- Go map `verifiers`, as an association list in insertion order (keys shown unique in Props). -/
   verifiers : List (Nat × Vss.Node) := []
   dealer : Vss.Node
+  /-- `commitments`: dealer → discrete logs of its Feldman commitments. -/
+  commitments : List (Nat × List Nat) := []
+  /-- `pendingReconstruct`: dealer → revealed shares in arrival order. -/
+  pending : List (Nat × List Rc) := []
+  /-- `reconstructed` (keys of the Go map). -/
+  reconstructed : List Nat := []
 deriving Repr
 
 /-- `NewDistKeyGenerator`: no verifier yet; the VSS dealer knows `t` and its session identifier. -/
@@ -44,6 +64,15 @@ inductive Op where
   /-- `ProcessJustification(j)`: `j.Index`, well-formed?, dealer's signature valid?, then the VSS justification. -/
   | justification (idx : Nat) (wellFormed sigOk : Bool) (vidx : Nat) (d : Deal)
   | setTimeout
+  /-- `SecretCommits()`: the node publishes the commitments of its own secret polynomial (given: their logs). -/
+  | secretCommits (cs : List Nat)
+  /-- `ProcessSecretCommits(sc)`: `sc.Index`, `sc.SessionID`, signature valid?, `sc.Commitments`. -/
+  | procSecretCommits (idx sid : Nat) (sigOk : Bool) (cs : List Nat)
+  /-- `ProcessComplaintCommits(cc)`: `cc.Index`, `cc.DealerIndex`, signature valid?, `cc.Deal`. -/
+  | procComplaintCommits (issuer dealerIdx : Nat) (sigOk : Bool) (d : Deal)
+  /-- `ProcessReconstructCommits(rs)`: session id, `rs.Index`, `rs.DealerIndex`, share present?, `Share.I`,
+      `Share.V`, signature valid?. -/
+  | procReconstruct (sid index dealerIdx : Nat) (hasShare : Bool) (si sv : Nat) (sigOk : Bool)
 deriving Repr
 
 inductive Out where
@@ -55,6 +84,14 @@ inductive Out where
   | errNoDeal                  -- response / justification without a deal
   | errMalformed | errSig      -- justification refused before it reaches the verifier
   | errVss (o : Vss.Out)       -- the error of the VSS layer
+  | complaintCommits           -- a ComplaintCommits to broadcast
+  | reconstructCommits         -- a ReconstructCommits to broadcast
+  | errQual                    -- sender not in QUAL
+  | errSid                     -- wrong session id
+  | errCommits                 -- commitments missing / still present
+  | errComplaint               -- complaint about a share that verifies
+  | errShareIndex              -- revealed share missing or not the sender's
+  | errNotCertified            -- SecretCommits before the own deal is certified
   | panic
 deriving DecidableEq, Repr
 
@@ -82,6 +119,12 @@ def ownDeal (cfg : Cfg) (nd : Node) (d : Deal) : Node × Out :=
     | (nd', .resp true) => ({ nd' with dealer := (Vss.step cfg nd'.dealer (.unsafeSet nd.me true)).1 }, .ok)
     | (nd', _) => (nd', .panic)
 
+/-- The `Response` object a node is handed about its OWN deal is stored by pointer in two aggregators: that of
+    the node's verifier for its own deal and that of its VSS dealer. An accepted justification sets
+    `Approved = true` on that object, so the dealer's slot flips together with the verifier's. -/
+def dealerSlotApproved (dl : Vss.Node) (vidx : Nat) : Vss.Node :=
+  { dl with agg := dl.agg.map (fun a => { a with responses := setApproved a.responses vidx }) }
+
 /-- `ProcessResponse`. -/
 def processResponse (cfg : Cfg) (nd : Node) (idx sid vidx : Nat) (approved sigOk : Bool) (own : Option Deal) :
     Node × Out :=
@@ -100,7 +143,8 @@ def processResponse (cfg : Cfg) (nd : Node) (idx sid vidx : Nat) (approved sigOk
           | none => ({ nd' with dealer := dl }, .panic)
           | some od =>
             match Vss.step cfg v' (.justification vidx true od) with
-            | (v'', .ok) => ({ nd' with dealer := dl, verifiers := setV nd.verifiers idx v'' }, .justif)
+            | (v'', .ok) =>
+              ({ nd' with dealer := dealerSlotApproved dl vidx, verifiers := setV nd.verifiers idx v'' }, .justif)
             | (v'', o) => ({ nd' with dealer := dl, verifiers := setV nd.verifiers idx v'' }, .errVss o)
         | (_, o) => (nd', .errVss o)
     | (_, o) => (nd, .errVss o)
@@ -115,8 +159,135 @@ def processJustification (cfg : Cfg) (nd : Node) (idx : Nat) (wellFormed sigOk :
     else if !sigOk then (nd, .errSig)
     else
       match Vss.step cfg v (.justification vidx sigOk d) with
-      | (v', .ok) => ({ nd with verifiers := setV nd.verifiers idx v' }, .ok)
+      | (v', .ok) =>
+        ({ nd with verifiers := setV nd.verifiers idx v',
+                   dealer := if idx == nd.me then dealerSlotApproved nd.dealer vidx else nd.dealer }, .ok)
       | (v', o) => ({ nd with verifiers := setV nd.verifiers idx v' }, .errVss o)
+
+/-- `QUAL()`: the dealers whose verifier certifies (a set: the Go code iterates a map). -/
+def qual (cfg : Cfg) (nd : Node) : List Nat :=
+  (nd.verifiers.filter (fun p => Vss.certified cfg p.2)).map Prod.fst
+
+/-- `Certified()`. -/
+def certified (cfg : Cfg) (nd : Node) : Bool := decide (nd.t ≤ (qual cfg nd).length)
+
+/-! ### second phase -/
+
+/-- Go map assignment / deletion on association lists. -/
+def mput {α : Type} (m : List (Nat × α)) (k : Nat) (v : α) : List (Nat × α) :=
+  if (m.lookup k).isSome then m.map (fun p => if p.1 == k then (p.1, v) else p) else m ++ [(k, v)]
+def mdel {α : Type} (m : List (Nat × α)) (k : Nat) : List (Nat × α) := m.filter (fun p => p.1 != k)
+
+/-- `PubPoly.Check(share)` against commitments on the standard base. -/
+def feldmanOk (q : Nat) (cs : List Nat) (i v : Nat) : Bool := Share.check q cs none i v
+
+/-- `isInQUAL(idx)` together with the verifier it reads next. -/
+def qualVerifier (cfg : Cfg) (nd : Node) (idx : Nat) : Option Agg :=
+  match nd.verifiers.lookup idx with
+  | some v => if Vss.certified cfg v then v.agg else none
+  | none => none
+
+/-- `SecretCommits()`. -/
+def secretCommits (cfg : Cfg) (nd : Node) (cs : List Nat) : Node × Out :=
+  if !Vss.certified cfg nd.dealer then (nd, .errNotCertified)
+  else ({ nd with commitments := mput nd.commitments nd.me cs }, .ok)
+
+/-- `ProcessSecretCommits`. -/
+def processSecretCommits (cfg : Cfg) (nd : Node) (idx sid : Nat) (sigOk : Bool) (cs : List Nat) : Node × Out :=
+  if decide (cfg.n ≤ idx) then (nd, .errIndex)
+  else match qualVerifier cfg nd idx with
+  | none => (nd, .errQual)
+  | some a =>
+    if a.sid != some sid then (nd, .errSid)
+    else if !sigOk then (nd, .errSig)
+    else match a.deal with
+    | none => (nd, .panic)
+    | some dl =>
+      if feldmanOk cfg.q cs dl.i dl.v then ({ nd with commitments := mput nd.commitments idx cs }, .ok)
+      else (nd, .complaintCommits)
+
+/-- `ProcessComplaintCommits`. -/
+def processComplaintCommits (cfg : Cfg) (nd : Node) (issuer dealerIdx : Nat) (sigOk : Bool) (d : Deal) : Node × Out :=
+  if decide (cfg.n ≤ issuer) then (nd, .errIndex)
+  else if (qualVerifier cfg nd issuer).isNone then (nd, .errQual)
+  else if !sigOk then (nd, .errSig)
+  else match nd.verifiers.lookup dealerIdx with
+  | none => (nd, .errNoDeal)
+  | some v =>
+    match Vss.step cfg v (.verifyDeal d false) with
+    | (v', .ok) =>
+      let nd1 := { nd with verifiers := setV nd.verifiers dealerIdx v' }
+      match nd.commitments.lookup dealerIdx with
+      | none => (nd1, .errCommits)
+      | some cs =>
+        if feldmanOk cfg.q cs d.i d.v then (nd1, .errComplaint)
+        else match (if Vss.certified cfg v' then v'.agg.bind (·.deal) else none) with
+          | none => (nd1, .errNoDeal)
+          | some own =>
+            ({ nd1 with commitments := mdel nd.commitments dealerIdx,
+                        pending := mput nd.pending dealerIdx
+                          ((nd.pending.lookup dealerIdx).getD [] ++ [⟨d.sid, nd.me, own.i, own.v⟩]) },
+             .reconstructCommits)
+    | (v', o) => ({ nd with verifiers := setV nd.verifiers dealerIdx v' }, .errVss o)
+
+inductive Scan where
+  | dup | badSid | fresh
+deriving DecidableEq, Repr
+
+/-- The loop over the stored messages: the first one that has the same sender (→ ignore the new one) or another
+    session id (→ error) decides. -/
+def scan (index sid : Nat) : List Rc → Scan
+  | [] => .fresh
+  | r :: rest => if r.index == index then .dup else if r.sid != sid then .badSid else scan index sid rest
+
+/-- `ProcessReconstructCommits` (with the repair: the revealed share is the sender's). -/
+def processReconstruct (cfg : Cfg) (nd : Node) (sid index dealerIdx : Nat) (hasShare : Bool) (si sv : Nat)
+    (sigOk : Bool) : Node × Out :=
+  if nd.reconstructed.contains dealerIdx then (nd, .ok)
+  else if (nd.commitments.lookup dealerIdx).isSome then (nd, .errCommits)
+  else if decide (cfg.n ≤ index) then (nd, .errIndex)
+  else if !sigOk then (nd, .errSig)
+  else if !hasShare || si != index then (nd, .errShareIndex)
+  else
+    let arr := (nd.pending.lookup dealerIdx).getD []
+    match scan index sid arr with
+    | .dup => (nd, .ok)
+    | .badSid => (nd, .errSid)
+    | .fresh =>
+      let arr' := arr ++ [⟨sid, index, si, sv⟩]
+      if decide (nd.t ≤ arr'.length) then
+        match Share.recoverPriPoly cfg.q (arr'.map (fun r => some ⟨r.si, some r.sv⟩)) nd.t with
+        | none => (nd, .panic)
+        | some pri =>
+          ({ nd with commitments := mput nd.commitments dealerIdx (Share.commit cfg.q pri none),
+                     reconstructed := nd.reconstructed ++ [dealerIdx],
+                     pending := mdel nd.pending dealerIdx }, .ok)
+      else ({ nd with pending := mput nd.pending dealerIdx arr' }, .ok)
+
+/-- `Finished()`. -/
+def finished (cfg : Cfg) (nd : Node) : Bool :=
+  (qual cfg nd).all (fun i => (nd.commitments.lookup i).isSome) && decide (nd.t ≤ (qual cfg nd).length)
+
+/-- `DistKeyShare()`: the own share of the distributed secret and the commitments of the distributed polynomial
+    (`none`: an error). Sums over `QUAL()` in any order (addition is commutative; the Go code iterates a map). -/
+def distKeyShare (cfg : Cfg) (nd : Node) : Option (Nat × List Nat) :=
+  if !certified cfg nd then none else
+  let step := fun (acc : Option (Nat × Option (List Nat))) (i : Nat) =>
+    match acc with
+    | none => none
+    | some (sh, pub) =>
+      match qualVerifier cfg nd i with
+      | none => none
+      | some a =>
+        match a.deal, nd.commitments.lookup i with
+        | some dl, some cs =>
+          match pub with
+          | none => some (Scalar.add cfg.q sh dl.v, some cs)
+          | some p => (Share.polyAdd cfg.q p cs).map (fun r => (Scalar.add cfg.q sh dl.v, some r))
+        | _, _ => none
+  match (qual cfg nd).foldl step (some (0, none)) with
+  | some (sh, some pub) => some (sh, pub)
+  | _ => none
 
 def step (cfg : Cfg) (nd : Node) : Op → Node × Out
   | .deal idx sigOk opens d => processDeal cfg nd idx sigOk opens d
@@ -125,14 +296,12 @@ def step (cfg : Cfg) (nd : Node) : Op → Node × Out
   | .justification idx wf sigOk vidx d => processJustification cfg nd idx wf sigOk vidx d
   | .setTimeout =>
     ({ nd with verifiers := nd.verifiers.map (fun p => (p.1, (Vss.step cfg p.2 .setTimeout).1)) }, .ok)
+  | .secretCommits cs => secretCommits cfg nd cs
+  | .procSecretCommits idx sid sigOk cs => processSecretCommits cfg nd idx sid sigOk cs
+  | .procComplaintCommits issuer dealerIdx sigOk d => processComplaintCommits cfg nd issuer dealerIdx sigOk d
+  | .procReconstruct sid index dealerIdx hasShare si sv sigOk =>
+    processReconstruct cfg nd sid index dealerIdx hasShare si sv sigOk
 
 def run (cfg : Cfg) (nd : Node) (ops : List Op) : Node := ops.foldl (fun s op => (step cfg s op).1) nd
-
-/-- `QUAL()`: the dealers whose verifier certifies (a set: the Go code iterates a map). -/
-def qual (cfg : Cfg) (nd : Node) : List Nat :=
-  (nd.verifiers.filter (fun p => Vss.certified cfg p.2)).map Prod.fst
-
-/-- `Certified()`. -/
-def certified (cfg : Cfg) (nd : Node) : Bool := decide (nd.t ≤ (qual cfg nd).length)
 
 end Kyber.RabinDkg
